@@ -12,6 +12,12 @@ class Stream:
     def _prefix(self, data):
         """what an interrupted write delivered: half of the data, or (cut="in-command") everything up to a point inside the first
         string command (APC / OSC) the data holds"""
+        if self.cut == "in-colour":
+            # everything up to a point just inside the first coloured run (after a colour-setting SGR, before its reset)
+            import re as _re
+            mm = _re.search("\x1b\\[[34]8;2;[0-9;]*m", data)
+            if mm:
+                return data[: mm.end() + 1]
         if self.cut == "in-command":
             starts = [i for i in (data.find("\x1b_"), data.find("\x1b]")) if i >= 0]
             if starts:
@@ -267,7 +273,7 @@ def old_draw_faults(m, meta):
         pass
     out = []
     # (style, stdout is a tty?): output that is not a tty may still reach one (tee, a wrapper stream) - only the cursor is left alone then
-    for cls, tty in ((BlockImage, True), (KittyImage, True), (ITerm2Image, True), (KittyImage, False), (ITerm2Image, False)):
+    for cls, tty in ((BlockImage, True), (KittyImage, True), (ITerm2Image, True), (BlockImage, False), (KittyImage, False), (ITerm2Image, False)):
         for frames, animate in ((3, True), (1, True), (3, False)):        # animation, still image, still draw of an animated image
             image = cls(_gif(frames))
             image.set_size(height=2)
@@ -285,7 +291,8 @@ def old_draw_faults(m, meta):
             import re as _re
             if cleanup_from >= 2 and st0.log[cleanup_from - 1] == "" and _re.fullmatch(r"\x1b\[\d+B", st0.log[cleanup_from - 2] or ""):
                 cleanup_from -= 2
-            for exc, cut in ((KeyboardInterrupt, "half"), (Boom, "half"), (KeyboardInterrupt, "in-command"), (Boom, "in-command")):
+            for exc, cut in ((KeyboardInterrupt, "half"), (Boom, "half"), (KeyboardInterrupt, "in-command"), (Boom, "in-command"), (KeyboardInterrupt, "in-colour"),
+                             (Boom, "in-colour")):
                 for k in range(1, cleanup_from + 1):
                     image = cls(_gif(frames))
                     image.set_size(height=2)
@@ -310,6 +317,8 @@ def old_draw_faults(m, meta):
                         errs.append("cursor left hidden")
                     if _string_command_open(text):
                         errs.append("a graphics command (APC/OSC/DCS string) left open")
+                    elif (vt.fg, vt.bg) != (None, None):
+                        errs.append(f"text attributes not reset (foreground {vt.fg}, background {vt.bg} still in force)")
                     if image.size != size0 or image.tell() != seek0:
                         errs.append(f"size/current frame changed: {image.size}, {image.tell()}")
                     animation = frames > 1 and animate
